@@ -216,6 +216,9 @@ func (r *Report) finish(verifDir string, nPkgs, nFuncs int, seed int) int {
 		"violations":  newV,
 	}
 	evDir := filepath.Join(verifDir, "evidence")
+	if d := os.Getenv("VERIF_EVIDENCE_DIR"); d != "" {
+		evDir = d // self-test runs against edited scratch states must not overwrite the registered evidence
+	}
 	os.MkdirAll(evDir, 0o755)
 	b, _ := json.MarshalIndent(ev, "", " ")
 	if err := os.WriteFile(filepath.Join(evDir, r.Prop+".json"), b, 0o644); err != nil {
